@@ -165,7 +165,7 @@ func ParseContractFile(path string) (*ContractFile, error) {
 			}
 			switch kind {
 			case "requires", "ensures", "modifies", "invariant", "decreases", "local", "terminates", "inline",
-				"recovers", "nopanic", "fresh", "lemma", "assert", "assume", "pure", "split", "appends", "appendsAll", "copies", "mapStore", "mapDelete", "opaque", "panics", "trusted", "variant", "unroll", "calls_only", "lock", "ghost", "known", "uselemma", "exit", "partial":
+				"recovers", "nopanic", "fresh", "freshornil", "lemma", "assert", "assume", "pure", "split", "appends", "appendsAll", "copies", "mapStore", "mapDelete", "opaque", "panics", "trusted", "variant", "unroll", "calls_only", "lock", "ghost", "known", "uselemma", "exit", "partial":
 				cl.Kind = kind
 				cl.Text = rest
 				cur.Clauses = append(cur.Clauses, cl)
@@ -629,7 +629,7 @@ func (cf *ContractFile) Generate() (string, error) {
 				} else {
 					stmt = fmt.Sprintf("__modifies(%s)", e)
 				}
-			case "fresh":
+			case "fresh", "freshornil":
 				stmt = fmt.Sprintf("__fresh(%s)", cl.Text)
 			case "copies":
 				e, err := RewriteExpr(cl.Text)
